@@ -1,7 +1,7 @@
 (* Run.v — the operations of the correspondence check: one [run_case] entry point. *)
 From DltV.Model Require Import Bytes RustInt Utf8 Nom Dlt Parse Wire.
 From DltV.Spec Require Import WellFormed.
-From DltV.Model Require Import Stats Reader Stream.
+From DltV.Model Require Import Stats Reader Stream Float FibexWire.
 Open Scope N_scope.
 
 Definition w_cres (x : option (list argument)) : list wtok :=
@@ -271,5 +271,8 @@ Definition run_case (op : N) (ts : list wtok) : list wtok :=
   | 32 => op_stats ts
   | 40 => op_read ts
   | 41 => op_async ts
+  | 42 => run_rd r_arg ts (fun a => w_chk (w_opt w_n) (to_real_value a))
+  | 50 => op_fibex ts
+  | 51 => op_fibex_lookup ts
   | _ => [WN 998]
   end.
